@@ -21,13 +21,24 @@ RULE = ('per helper, the cross product of the boundary set {None where optional,
         'repeated and every single-argument variation A-B-A; motors_enable from all 20 board states followed by a second and '
         'third request, and only-motor-2 / scale change / only-motor-2 again; random walks over all helpers with both layers '
         'interleaved on two objects per layer (different firmware / board state) plus one port-less object per layer, reboot '
-        'and re-attach; the EBB3 fake tracks EM/QE state as documented')
+        'and re-attach; the EBB3 fake tracks EM/QE state as documented.  Third stream: LATE acknowledgements - the board answers '
+        'every request but a reply line arrives after k reads have timed out (k in {1, 2, 3, limit-1 or random, limit}; limit = '
+        'the documented patience, 25 empty reads in the EBB3 layer and 100 in the legacy layer): per helper and layer, one call '
+        'on a fresh object with ONE late reply line at every reply position (each command of the multi-command helpers, every '
+        'pause chunk (first two, last two, one random for long pauses), data line and OK line of legacy queries, the legacy '
+        'version-gate reply), all reply lines late at once, random subsets; prompt-late-prompt repeats followed by a different '
+        'request on the same object; random walks on long-lived objects of both layers with about half of the calls late; the '
+        'transmitted text must be exactly the documented command, once, and no error may be recorded')
 TRUSTED = ['fake ports (harness/c06.py): acknowledge every command, answer queries like an EBB (legacy: data line + OK, '
-           'single line for V/PI; EBB3: reply starts with the request name)',
+           'single line for V/PI; EBB3: reply starts with the request name); replies are delivered in order, promptly or after '
+           'a scripted number of reads that return nothing (a read timeout)',
            'modelled not verified: Python int formatting ({}.format / f-string) = decimal numeral = Lean Int.repr '
            '(validated by this run on every boundary value)',
            'Std.Data.String lemmas Int.repr_injective, Nat.toList_repr, Nat.isDigit_of_mem_toDigits (Lean core library)']
-ASSUMPTIONS = ['arguments are Python ints (optional ones int or None); the board acknowledges every command, so no error is latched',
+ASSUMPTIONS = ['arguments are Python ints (optional ones int or None); the board acknowledges every command - promptly, or late '
+               'by at most the documented patience (25 empty reads EBB3, 100 legacy; statements of C05 / C07) - so no error is latched',
+               'EBB3.query_statusbyte reads once (no retry, modelled so in C05): a late reply is a timeout for it and latches an '
+               'error, so its reply is never delayed here (a board that does not answer in time is outside the domain)',
                'the firmware-version query V that legacy servo_timeout / queryVoltage send first is their documented gate and is '
                'not counted as "something else"; below the gate version nothing but V is sent',
                'timed pauses are exercised up to 2*10^5 ms (2^31-1 ms would be 2.8 million writes); the theorem covers every n',
@@ -52,7 +63,22 @@ VERSIONS = ['2.5.9', '2.6.0', '2.8.1', '2.2.2', '2.2.3']
 # ----------------------------------------------------------------------------------------------
 # fake boards
 # ----------------------------------------------------------------------------------------------
-class LegacyPort:
+class LatePort:
+    """reply timing of a fake board: every reply line is delivered, in order, but reply line number j (counted from the
+    last arm()) may be LATE - `plan[j]` reads time out (return b'') before it arrives.  An empty plan = prompt replies."""
+
+    def arm(self, plan):
+        self.plan = {int(j): int(k) for j, k in (plan or [])}
+        self.nreply = 0
+
+    def push(self, reply):
+        for _ in range(self.plan.pop(self.nreply, 0)):
+            self.q.append(b'')                      # a read that times out: the reply has not arrived yet
+        self.nreply += 1
+        self.q.append(reply)
+
+
+class LegacyPort(LatePort):
     """legacy-syntax board: commands -> OK; queries -> data line (+ OK unless V / PI)"""
     DATA = {'QP': '1', 'QB': '0', 'QS': '12,-7', 'QL': '5', 'QC': '0394,0300', 'QE': '16,16', 'QT': 'abc', 'QG': '1F'}
 
@@ -60,19 +86,20 @@ class LegacyPort:
         self.sent = []
         self.q = collections.deque()
         self.version = version
+        self.arm(None)
 
     def write(self, data):
         self.sent.append(bytes(data))
         name = bytes(data).decode('ascii', 'replace').split(',')[0].strip().upper()
         if name == 'V':
-            self.q.append(f'EBBv13_and_above EB Firmware Version {self.version}\r\n'.encode('ascii'))
+            self.push(f'EBBv13_and_above EB Firmware Version {self.version}\r\n'.encode('ascii'))
         elif name == 'PI':
-            self.q.append(b'PI,1\r\n')
+            self.push(b'PI,1\r\n')
         elif name in self.DATA:
-            self.q.append((self.DATA[name] + '\r\n').encode('ascii'))
-            self.q.append(b'OK\r\n')
+            self.push((self.DATA[name] + '\r\n').encode('ascii'))
+            self.push(b'OK\r\n')
         else:
-            self.q.append(b'OK\r\n')
+            self.push(b'OK\r\n')
         return len(data)
 
     def readline(self):
@@ -82,13 +109,14 @@ class LegacyPort:
         pass
 
 
-class Ebb3Port:
+class Ebb3Port(LatePort):
     """future-syntax board: every reply starts with the request's name"""
 
     def __init__(self, qe=(16, 16)):
         self.sent = []
         self.q = collections.deque()
         self.qe = qe
+        self.arm(None)
 
     def write(self, data):
         self.sent.append(bytes(data))
@@ -96,9 +124,9 @@ class Ebb3Port:
         data_of = {'QE': f'{self.qe[0]},{self.qe[1]}', 'QS': '3,-4', 'QC': '394,300', 'QL': '5', 'PI': '1', 'QT': 'abc',
                    'QG': '1F', 'QP': '1', 'QB': '0'}
         if name.upper() in data_of:
-            self.q.append(f'{name},{data_of[name.upper()]}\r\n'.encode('ascii'))
+            self.push(f'{name},{data_of[name.upper()]}\r\n'.encode('ascii'))
         else:
-            self.q.append((name + '\r\n').encode('ascii'))
+            self.push((name + '\r\n').encode('ascii'))
         return len(data)
 
     def readline(self):
@@ -452,7 +480,7 @@ def run(ctx):
                 reqs.append((i['kind'], tuple(i['args']), tuple(i.get('board', (16, 16))), i.get('version', '2.8.1')))
     else:
         reqs = gen_requests(ctx, T)
-        seqs = gen_sequences(ctx, T)
+        seqs = gen_sequences(ctx, T) + gen_late(ctx, T)
 
     # ---- model answers (one driver line per request) ----
     lines = []
@@ -802,6 +830,139 @@ def gen_sequences(ctx, T):
     return seqs
 
 
+# ----------------------------------------------------------------------------------------------
+# late acknowledgements: the board answers every request, but a reply line arrives after k reads have timed out (k within
+# the documented patience: 25 empty reads in the EBB3 layer, 100 in the legacy layer - statements of C05 / C07).  The
+# helper must still transmit exactly the documented text, once.
+# ----------------------------------------------------------------------------------------------
+PATIENCE = {'ebb3': 25, 'legacy': 100}
+# EBB3.query_statusbyte reads exactly once (DESIGN 7/C05: "reads once (no retry)"): for it a late reply IS a timeout, the
+# error is latched and every later request of the object is blocked (C04) - a board that does not acknowledge in time is
+# outside this property's domain, so the status query is always answered promptly here.
+IMPATIENT = {('ebb3', 'queryStatus')}
+
+
+def state_qe(state):
+    m = Ebb3Board.MULT[int(state[2])]
+    return (m if state[0] else 0, m if state[1] else 0)
+
+
+def reply_lines(layer, kind, a, board, ver):
+    """how many reply lines a conforming board sends for this request, from the oracle: one per command or no-OK query,
+    data line + OK for the other legacy queries, one more for the legacy version gate (an estimate for pauses: a plan entry
+    beyond the last reply line is simply never used)"""
+    if kind == 'timedPause':
+        w = [b'SM'] * (0 if a[0] <= 0 else -(-a[0] // 750))
+    else:
+        w = required(kind, tuple(a), board)
+    if layer == 'ebb3':
+        return len(w)
+    n = 0
+    if kind in GATE:
+        n = 1
+        if tuple(int(x) for x in ver.split('.')) < GATE[kind]:
+            return n
+    for x in w:
+        n += 2 if x.split(b',')[0].strip().upper().decode('ascii') in LegacyPort.DATA else 1
+    return n
+
+
+def late_counts(rng, layer):
+    """numbers of empty reads before a reply: 1..3, the documented limit and its neighbour below, one random in between"""
+    lim = PATIENCE[layer]
+    return [1, 2, 3, lim, rng.choice([lim - 1, rng.randint(4, lim - 2)])]
+
+
+def late_args(ctx, kind, spec, layer):
+    """[(arguments, EBB3 board state or None)]: the multi-command forms of the helper first, then small / zero / boundary"""
+    rng = ctx.rng
+    if kind == 'timedPause':
+        return [([n], None) for n in [1, 750, 751, 1500, 1600, 2251, rng.randint(752, 6000)] +
+                [rng.randint(1, 4000) for _ in range(ctx.n(1))]]
+    if kind == 'enable':
+        if layer == 'legacy':
+            return [([r, r], None) for r in [1, 0, rng.choice([2, 3, 5, 6, -1])]]
+        out = [([1, 1], None), ([0, 0], None), ([rng.choice([1, 2, 6]), 0], None)]
+        for _ in range(max(2, ctx.n(2))):
+            r = rng.randint(1, 5)
+            keep = rng.choice([st for st in BOARD_STATES if st[2] == r and (st[0] or st[1])])
+            other = rng.choice([st for st in BOARD_STATES if st[2] != r or not (st[0] or st[1])])
+            out += [([0, r], list(keep)), ([0, rng.choice([r, r, 6, 9])], list(other))]
+        return out
+    if not spec:
+        return [([], None)]
+    out = [(rand_args(rng, kind, spec, layer), None) for _ in range(max(1, ctx.n(2)))]
+    z = [None if c == 'o' and rng.random() < 0.5 else 0 for c in spec]          # every argument zero / optional ones absent
+    if kind == 'pbConfig' and layer == 'legacy':
+        z[2] = 0
+    out.append((z, None))
+    return out
+
+
+def gen_late(ctx, T):
+    rng = ctx.rng
+    seqs = []
+    serves = {'legacy': [k for k, v in T.items() if v[1] is not None],
+              'ebb3': [k for k, v in T.items() if v[2] is not None and k not in ('reboot', 'bootload')]}   # RB / BL read no reply
+
+    def obj(layer, state=None):
+        if layer == 'legacy':
+            return {'layer': 'legacy', 'version': rng.choice(VERSIONS), 'port': True}
+        return {'layer': 'ebb3', 'state': list(state or rng.choice(BOARD_STATES)), 'port': True}
+
+    def lines_of(o, kind, a):
+        return reply_lines(o['layer'], kind, a, state_qe(o['state']) if o['layer'] == 'ebb3' else (16, 16), o.get('version', '3.0.2'))
+
+    # (1) one call on a fresh object, ONE reply line late: every reply position of the helper (first, second, last two and
+    #     a random one of long pauses) x every count of late_counts
+    # (2) ... every reply line late at once; a random subset late by random counts up to the limit
+    # (3) A prompt, A late, A prompt, then a different request: nothing of the late exchange may leak into the next call
+    for layer in ('legacy', 'ebb3'):
+        for kind in serves[layer]:
+            spec = T[kind][0]
+            for a, st in late_args(ctx, kind, spec, layer):
+                o = obj(layer, st)
+                n = lines_of(o, kind, a)
+                if n == 0 or (layer, kind) in IMPATIENT:
+                    continue
+                pos = list(range(n)) if n <= 6 else sorted({0, 1, n - 2, n - 1, rng.randrange(n)})
+                for j in pos:
+                    for k in late_counts(rng, layer):
+                        seqs.append({'tag': 'late1', 'objects': [o], 'steps': [[0, kind, list(a), rng.random() < 0.5, [[j, k]]]]})
+                seqs.append({'tag': 'lateall', 'objects': [o],
+                             'steps': [[0, kind, list(a), rng.random() < 0.5, [[j, rng.randint(1, 3)] for j in range(n)]]]})
+                for _ in range(max(1, ctx.n(1))):
+                    sub = [[j, rng.choice([1, 2, rng.randint(1, PATIENCE[layer])])] for j in range(n) if rng.random() < 0.5] \
+                        or [[rng.randrange(n), 1]]
+                    seqs.append({'tag': 'lateall', 'objects': [o], 'steps': [[0, kind, list(a), rng.random() < 0.5, sub]]})
+                j, k = rng.randrange(n), rng.choice([1, 1, 2, 3, PATIENCE[layer]])
+                okind = rng.choice(serves[layer])                       # (answered promptly)
+                seqs.append({'tag': 'lateaba', 'objects': [o],
+                             'steps': [[0, kind, list(a), False], [0, kind, list(a), False, [[j, k]]], [0, kind, list(a), False],
+                                       [0, okind, rand_args(rng, okind, T[okind][0], layer), False]]})
+    # (4) walks over all helpers on long-lived objects, both layers interleaved, about half of the calls with one or two
+    #     late reply lines
+    for _ in range(ctx.n(150)):
+        objects = [obj('legacy'), obj('legacy'), obj('ebb3'), obj('ebb3')]
+        steps = []
+        for _ in range(rng.randint(8, 30)):
+            oi = rng.randrange(4)
+            layer = objects[oi]['layer']
+            kind = rng.choice(serves[layer])
+            if steps and rng.random() < 0.3 and objects[steps[-1][0]]['layer'] == layer:
+                kind = steps[-1][1]                                             # the same helper again (same or other object)
+            a = rand_args(rng, kind, T[kind][0], layer)
+            st = [oi, kind, a, rng.random() < 0.5]
+            if rng.random() < 0.5 and (layer, kind) not in IMPATIENT:
+                upper = 4 if kind == 'enable' else max(1, lines_of(objects[oi], kind, a))
+                lim = PATIENCE[layer]
+                st.append([[j, rng.choice([1, 1, 2, 3, rng.randint(1, lim), lim])]
+                           for j in sorted(rng.sample(range(upper), min(upper, rng.choice([1, 1, 2]))))])
+            steps.append(st)
+        seqs.append({'tag': 'latewalk', 'objects': objects, 'steps': steps})
+    return seqs
+
+
 def run_sequence(seq, T, e3m):
     objs = []
     for spec in seq['objects']:
@@ -815,7 +976,9 @@ def run_sequence(seq, T, e3m):
             objs.append({'layer': 'ebb3', 'fake': board, 'obj': o, 'ver': '3.0.2', 'connected': bool(spec.get('port', True)),
                          'attachable': bool(spec.get('port', True))})
     recs = []
-    for i, (oi, kind, a, drop) in enumerate(seq['steps']):
+    for i, step in enumerate(seq['steps']):
+        oi, kind, a, drop = step[:4]
+        late = step[4] if len(step) > 4 else None       # [[reply line number within this call, empty reads before it], ...]
         o = objs[oi]
         a = tuple(a)
         if kind == 'reattach':
@@ -825,10 +988,12 @@ def run_sequence(seq, T, e3m):
                 o['connected'] = True
             continue
         fake = o['fake']
+        if fake is not None:
+            fake.arm(late)
         before = len(fake.sent) if fake is not None else 0
         board = tuple(fake.qe) if o['layer'] == 'ebb3' else (16, 16)
         rec = {'step': i, 'layer': o['layer'], 'kind': kind, 'args': a, 'board': board, 'ver': o['ver'],
-               'connected': o['connected'], 'exc': None, 'err': None}
+               'connected': o['connected'], 'exc': None, 'err': None, 'late': late}
         try:
             if o['layer'] == 'legacy':
                 T[kind][1](fake if o['connected'] else None, a, drop)
@@ -866,6 +1031,10 @@ def _run_sequences(ctx, T, e3m, seqs):
         # the replayable input is the sequence cut after the failing step
         inp = {'kind': kind, 'args': list(a), 'board': list(r['board']), 'version': r['ver'], 'layer': layer, 'step': r['step'],
                'sequence': {'tag': seq.get('tag'), 'objects': seq['objects'], 'steps': seq['steps'][:r['step'] + 1]}}
+        if r.get('late'):
+            inp['late_acknowledgement'] = [{'reply_line_of_this_call': j, 'empty_reads_before_it': k} for j, k in r['late']]
+        lk = '-late-ack' if r.get('late') else ''                # failing-input class: the reply to this call was late
+        lw = ' (a reply arrives after reads that time out, within the documented patience)' if r.get('late') else ''
         tag = seq.get('tag', 'seq')
         ctx.count((layer, tag, r['seq'], r['step']), f"seq:{tag}:{layer}:{'noport' if not r['connected'] else model_path(kind, a, r['board'])}", True)
         if r['exc'] is not None:
@@ -873,8 +1042,8 @@ def _run_sequences(ctx, T, e3m, seqs):
                         'the documented command', key=f'seq-{layer}-{kind}-raised')
             continue
         if r['err'] is not None:
-            ctx.violate(f'ebb3 {kind}: an error was recorded although every request was acknowledged', inp, repr(r['err']), 'err is None',
-                        key=f'seq-ebb3-{kind}-err')
+            ctx.violate(f'ebb3 {kind}: an error was recorded although every request was acknowledged{lw}', inp, repr(r['err']),
+                        'err is None', key=f'seq-ebb3-{kind}-err{lk}')
         if outs:
             fs = [parse_field(f) for f in outs[idx].split('|')]
             mdl = fs[0] if layer == 'legacy' else fs[2]
@@ -900,13 +1069,13 @@ def _run_sequences(ctx, T, e3m, seqs):
         if kind == 'timedPause':
             ok, want = pause_ok(a[0], body)
             if not ok:
-                ctx.violate(f'{layer} timed pause inside a sequence: wrong chunking', inp, repr(body[:4]) + f' ... {len(body)} commands', want,
-                            key=f'seq-{layer}-pause-chunking')
+                ctx.violate(f'{layer} timed pause inside a sequence: wrong chunking{lw}', inp,
+                            repr(body[:4]) + f' ... {len(body)} commands', want, key=f'seq-{layer}-pause-chunking{lk}')
         else:
             req = required(kind, a, r['board'])
             if body != req:
-                ctx.violate(f'{layer} {kind}: call {r["step"]} of a sequence on one port/object does not transmit the documented command',
-                            inp, repr(body[:6]), repr(req[:6]), key=f'seq-{layer}-{kind}-wrong-text')
+                ctx.violate(f'{layer} {kind}: call {r["step"]} of a sequence on one port/object does not transmit the documented command{lw}',
+                            inp, repr(body[:6]), repr(req[:6]), key=f'seq-{layer}-{kind}-wrong-text{lk}')
 
 
 # ----------------------------------------------------------------------------------------------
